@@ -5,7 +5,7 @@ PID = "C12"
 
 def main(tier, seed):
     return sprops.main_S(PID, tier, seed, {96}, "Props.C12",
-                         ["Model/Sim.v", "Oracle/SimCheck.v", "Oracle/SimOracle.v", "Proofs/SimP.v", "Props/C12.v"],
+                         ["Model/Sim.v", "Model/Master.v", "Oracle/SimCheck.v", "Oracle/SimOracle.v", "Proofs/MasterP.v", "Props/C12.v"],
                          "pacing", "callbacks")
 
 
